@@ -435,5 +435,7 @@ def run(S):
     rule_mx(S)
     # lock-protects-field: a link (prev_, parent_) written after its guarding lock was dropped can be left pointing at
     # a deleted node, on which retry_prev_lock / lock_parent then spin forever (shared with C08)
-    from checks.C08 import rule_mul
+    from checks.C08 import rule_mul, rule_sib
     rule_mul(S, la)
+    # a revived root that kept a link to its retired sibling makes every backward cursor retry for ever (finding F13)
+    rule_sib(S)
